@@ -226,7 +226,6 @@ namespace {
         // Quiescence: faults stop, fair schedule. Top up permits only when the model says none is
         // available and every unfinished party is blocked in acquire(); with a permit available a
         // blocked acquirer has to proceed on its own.
-        sim_quiesce(2000000);
         int64_t topups = 0;
         while (!P.all_finished())
         {
@@ -242,6 +241,7 @@ namespace {
             main_pause();
         }
         P.join_os();
+        sim_quiesce(2000000);
         probe("topups", (uint64_t) topups);
         // no permit lost, none invented: drain
         int64_t expect = S.initial + S.rel_ret - S.acq;
@@ -297,9 +297,9 @@ namespace {
                     ev(EV_REL_RET, 1, (int64_t) rel_ret_ns);
                 }
             });
-        sim_quiesce(2000000);
         while (!P.all_finished()) main_pause();
         P.join_os();
+        sim_quiesce(2000000);
         bool before = deadline_ns != 0 && rel_ret_ns < deadline_ns;
         probe(before ? "release_before_deadline" : "release_after_deadline");
         if (before)
@@ -398,7 +398,6 @@ namespace {
                 }
             }
         });
-        sim_quiesce(2000000);
         while (!P.all_finished())
         {
             // every unfinished party blocked: those within distance of the returned lower limit
@@ -427,6 +426,7 @@ namespace {
             main_pause();
         }
         P.join_os();
+        sim_quiesce(2000000);
         (void) min_blocked_upper;
         pk::stop();
     }
